@@ -57,7 +57,7 @@ def bind():
         if REPO in sys.path:
             sys.path.remove(REPO)
         sys.path.insert(0, REPO)
-        sys.setrecursionlimit(max(sys.getrecursionlimit(), 6000))
+        sys.setrecursionlimit(max(sys.getrecursionlimit(), 3000))
         _bound = True
     import vyxal.main  # noqa
 
